@@ -38,6 +38,7 @@ type Req struct {
 	Prune  bool     `json:"prune"`
 	Inputs []string `json:"inputs"`
 	NoCirc bool     `json:"nocirc"`
+	SSA    bool     `json:"ssa"`
 }
 
 type IOArgJ struct {
@@ -49,15 +50,17 @@ type IOArgJ struct {
 }
 
 type Resp struct {
-	OK      bool     `json:"ok"`
-	Err     string   `json:"err,omitempty"`
-	NW      int      `json:"nw,omitempty"`
-	Gates   [][4]int `json:"gates,omitempty"`
-	Levels  []int    `json:"levels,omitempty"`
-	Inputs  []IOArgJ `json:"inputs,omitempty"`
-	Outputs []IOArgJ `json:"outputs,omitempty"`
-	Results []string `json:"results,omitempty"`
-	Stats   string   `json:"stats,omitempty"`
+	OK      bool        `json:"ok"`
+	Err     string      `json:"err,omitempty"`
+	NW      int         `json:"nw,omitempty"`
+	Gates   [][4]int    `json:"gates,omitempty"`
+	Levels  []int       `json:"levels,omitempty"`
+	Inputs  []IOArgJ    `json:"inputs,omitempty"`
+	Outputs []IOArgJ    `json:"outputs,omitempty"`
+	Results []string    `json:"results,omitempty"`
+	Vectors []VecResult `json:"vectors,omitempty"`
+	Stats   string      `json:"stats,omitempty"`
+	SSA     string      `json:"ssa,omitempty"`
 }
 
 func ioJ(io circuit.IO) []IOArgJ {
@@ -252,6 +255,10 @@ func compile(req *Req) (resp *Resp) {
 		}
 	}()
 	p := params(req)
+	var ssaBuf nopCloser
+	if req.SSA {
+		p.SSAOut = &ssaBuf
+	}
 	cc := compiler.New(p)
 	var circ *circuit.Circuit
 	var err error
@@ -271,6 +278,7 @@ func compile(req *Req) (resp *Resp) {
 	}
 	circ.AssignLevels(p.Target)
 	r := dump(circ)
+	r.SSA = ssaBuf.String()
 	if len(req.Inputs) > 0 {
 		r.Results, err = compute(circ, req.Inputs)
 		if err != nil {
@@ -283,6 +291,10 @@ func compile(req *Req) (resp *Resp) {
 	}
 	return r
 }
+
+type nopCloser struct{ strings.Builder }
+
+func (n *nopCloser) Close() error { return nil }
 
 func compute(circ *circuit.Circuit, inputs []string) ([]string, error) {
 	var in []*big.Int
@@ -350,6 +362,13 @@ func main() {
 					r = evalBuilder(&req)
 				case "compile":
 					r = compile(&req)
+				case "testfile":
+					v, e := testFile(&req)
+					if e != nil {
+						r = &Resp{Err: e.Error()}
+					} else {
+						r = &Resp{OK: true, Vectors: v}
+					}
 				default:
 					r = &Resp{Err: "unknown cmd"}
 				}
